@@ -106,6 +106,8 @@ def scenarios(seed, tier):
     _rnp = random.Random(seed * 104729 + 909)
     for i in range(80 if tier == 'quick' else 500):
         yield 'np%d' % i, {'_stream': 'nestedperm', 'case': NP.gen_case(random.Random(_rnp.getrandbits(48))), 'solve': i % 4 == 0}
+    # probe at the point outside the hypothesis of EAO.C09N.var_labels_injective: wrapped asset names containing '__' (finding F-09f)
+    yield 'np_probe', {'_stream': 'nestedperm_probe'}
 
 
 def finish_case(r2, s, adv_prob=0.3):
@@ -638,6 +640,15 @@ INFO_KEYS = ('amap', 'nmap', 'perm', 'inplace', 'linked', 'stage2', 'prices2', '
 
 
 def run_case(scn, drv):
+    if isinstance(scn, dict) and scn.get('_stream') == 'nestedperm_probe':
+        v_c, n_c = NP.collision_demo('c')
+        v_x, n_x = NP.collision_demo('a__b')
+        vio = []
+        if abs(v_c - v_x) > 1e-6 * max(1.0, abs(v_c)):
+            vio.append({'oracle': 'names_and_order', 'detail': 'LinkedAsset L around [structure b around plant a, plant X, contract c1] with c1 linked to bool_on of X: optimal value %.6g with X named "c" '
+                        '(look-up finds %d variable at step 0) but %.6g with X named "a__b" (finds %d: the name written for plant a inside b is bool_on__a__b as well) - an injective renaming changes the optimum' % (v_c, n_c, v_x, n_x),
+                        'facts': {'kind': 'var_label_collision', 'stream': 'nestedperm_probe'}})
+        return {'evaluated': 2, 'nontrivial': True, 'features': ['stream:nestedperm_probe'], 'disagreements': [], 'violations': vio}
     if isinstance(scn, dict) and scn.get('_stream') == 'nestedperm':
         r0 = NP.run_case(scn['case'], drv, with_oracle=True, solve=bool(scn.get('solve')))
         return {'evaluated': 1, 'nontrivial': bool(r0.get('compared')), 'features': ['stream:nestedperm', 'kind:' + str(scn['case'].get('kind'))],
